@@ -360,7 +360,14 @@ def gen_states(rng, nested):
                     if rng.random() < 0.25:
                         gk = ['p', 'q'][:rng.randint(1, 2)]
                         cd = _state_dict(rng, k)
-                        cd['children'] = [_state_dict(rng, g) for g in gk]
+                        cd['children'] = []
+                        for g in gk:
+                            gd = _state_dict(rng, g)
+                            if rng.random() < 0.35:         # one more level: a compound at depth 3
+                                gd['children'] = [_state_dict(rng, 'u'), _state_dict(rng, 'v')]
+                                gd['initial'] = 'u'
+                                paths.extend(SEP.join([name, k, g, x]) for x in ('u', 'v'))
+                            cd['children'].append(gd)
                         cd['initial'] = gk[0]
                         children.append(cd)
                         paths.append(SEP.join([name, k]))
@@ -379,6 +386,32 @@ def gen_states(rng, nested):
     return specs, paths
 
 
+def add_locals(rng, specs, p_local):
+    """transitions DECLARED INSIDE compound states (key 'transitions' of the state definition, names relative to that
+    state); returns records {t: the transition dict, depth: nesting depth of the declaring state (1 = top level),
+    src: global path of the source}"""
+    out = []
+
+    def walk(d, prefix, depth):
+        kids = d.get('children')
+        if kids:
+            names = [k['name'] for k in kids]
+            if rng.random() < p_local:
+                for _ in range(rng.randint(1, 2)):
+                    t = {'trigger': rng.choice(['e0', 'e0', 'l0']), 'source': rng.choice(names), 'dest': rng.choice(names)}
+                    if rng.random() < 0.3:
+                        t['before'] = [rng.choice(CBS)]
+                    d.setdefault('transitions', []).append(t)
+                    out.append({'t': t, 'depth': depth, 'src': SEP.join(prefix + [d['name'], t['source']])})
+            for k in kids:
+                walk(k, prefix + [d['name']], depth + 1)
+        for r in d.get('parallel', []):
+            walk(r, prefix + [d['name']], depth + 1)
+    for d in specs:
+        walk(d, [], 1)
+    return out
+
+
 def _state_dict(rng, name):
     d = {'name': name}
     if rng.random() < 0.3:
@@ -394,6 +427,9 @@ def gen_case(rng, cls_name, tier):
     g, nested, locked, asy = FLAGS[cls_name]
     specs, paths = gen_states(rng, nested)
     events = ['e%d' % i for i in range(rng.randint(1, 3))]
+    locs = add_locals(rng, specs, 0.45) if nested else []
+    if any(l['t']['trigger'] == 'l0' for l in locs):
+        events.append('l0')
     cbpool = CBS + (ACBS if asy else []) + (MODFNS if rng.random() < 0.3 else [])
     poke_p = rng.choice([0.0, 0.0, 0.0, 0.5])      # a quarter of the cases has cross-model re-entrant triggers
     trans = []
@@ -466,6 +502,16 @@ def gen_case(rng, cls_name, tier):
                     for x in all_states(d.get(k, [])):
                         yield x
         sds = list(all_states(specs))
+        if locs and rng.random() < 0.8:
+            # a snapshot from a callback of a locally declared transition, the deeper the declaring state the better,
+            # and a history that gets a model there
+            opts['auto_transitions'] = True
+            for l in sorted(locs, key=lambda l: -l['depth'])[:rng.randint(1, 2)]:
+                l['t'].setdefault(rng.choice(['before', 'prepare', 'after']), []).append('snap')
+                mi = rng.randrange(3)
+                at = rng.randint(0, len(hist))
+                hist[at:at] = [['trigger', mi, 'to_' + l['src'], False], ['trigger', mi, l['t']['trigger'], False]]
+                hl += 2
         for _ in range(rng.randint(1, 2)):
             r = rng.random()
             if r < 0.35:
@@ -523,6 +569,16 @@ def gen_item(rng, nm, events, paths, opts, prefix):
         return ['add_model']
     if prefix:
         return ['remove_model', mi]
+    # continuations: membership operations on the (restored) machine
+    r = rng.random()
+    if r < 0.35:
+        return ['readd', mi]                 # add_model of a model that is registered already: no effect
+    if r < 0.55:
+        return ['dispatch', rng.choice(events)]
+    if r < 0.70:
+        return ['add_model']
+    if r < 0.85:
+        return ['remove_model', mi]
     return ['trigger', mi, rng.choice(events), False]
 
 
@@ -539,7 +595,16 @@ def call(fn, *a, **kw):
     if inspect.isawaitable(r):
         if _LOOP is None or _LOOP.is_closed():
             _LOOP = asyncio.new_event_loop()
-        r = _LOOP.run_until_complete(r)
+        try:
+            r = _LOOP.run_until_complete(r)
+        finally:
+            # quiescent point: an exception of one branch of a `gather` (async dispatch) returns at once and leaves the
+            # other branches pending — let them finish before anything else is observed or pickled
+            for _ in range(10):
+                pending = [t for t in asyncio.all_tasks(_LOOP) if not t.done()]
+                if not pending:
+                    break
+                _LOOP.run_until_complete(asyncio.gather(*pending, return_exceptions=True))
     return r
 
 
@@ -649,6 +714,14 @@ def apply_item(case, rig, item):
             if m is not None:
                 m.__dict__['peer'] = None
             return ['ret', True]
+        if kind == 'readd':
+            m = model_at(rig, item[1])
+            if m is None:
+                return ['skip']
+            call(mach.add_model, m)
+            return ['ret', len(mach.models)]
+        if kind == 'dispatch':
+            return ['ret', bool(call(mach.dispatch, item[1], 7, k=1))]
         if kind == 'concurrent':
             m = model_at(rig, item[1])
             if m is None:
@@ -960,6 +1033,9 @@ def dec_obs(nums, pos):
         elif k == 2:
             out.append(['keyError', nums[pos + 1]])
             pos += 2
+        elif k == 4:
+            out.append(['members', nums[pos + 1]])
+            pos += 2
         else:
             out.append(['regen'])
             pos += 1
@@ -1218,6 +1294,15 @@ def judge_midevent(case, p, sn, fail, stats, reqs=None):
              midevent_signature(case, scope_left, ident_left, 'continuation'))
 
 
+def all_event_names(mach):
+    """events declared at the root or inside any (nested) state"""
+    stack = mach.__dict__.get('_stack')
+    names = set(stack[0][2] if stack else mach.events)
+    for st in iter_states(mach):
+        names.update(getattr(st, 'events', {}))
+    return names
+
+
 def iter_states(mach):
     def walk(d):
         for st in d.values():
@@ -1316,6 +1401,16 @@ def run_case(case, want_requests=True):
         if isinstance(qd, dict) and len(set(id(v) for v in qd.values())) != len(qd):
             fail('monitor', 'shared-queue', 'prefix %d: models of the copy share one queue object in '
                  '_transition_queue_dict (%d models, %d queues)' % (p, len(qd), len(set(id(v) for v in qd.values()))))
+        # (c) separation: no table of the copy is keyed by the identity of one of the original's objects
+        foreign = {id(A.machine): 'original machine'}
+        for o, _n in interesting_objects(A):
+            foreign[id(o)] = 'original ' + type(o).__name__
+        for o in C.models + ctx_objects(C) + [C.machine]:
+            foreign.pop(id(o), None)
+        stale = stale_identity_keys(C.machine, foreign)
+        if stale:
+            fail('monitor', 'stale-identity-key', 'prefix %d: the restored machine is keyed by identities of the '
+                 'original: %s' % (p, stale[:4]))
         # (c) nothing mutable is shared
         shared = shared_objects(A, C)
         if shared:
@@ -1344,9 +1439,9 @@ def run_case(case, want_requests=True):
         baseK = [len(r) for r in recs(K)]
         for i, it in enumerate(cont):
             stats['cont_steps'] += 1
-            mk = model_at(K, it[1]) if it[0] in ('trigger', 'may', 'remove_model') else None
+            mk = model_at(K, it[1]) if it[0] in ('trigger', 'may', 'remove_model', 'readd') else None
             srcK = canon_state(getattr(mk, K.machine.model_attribute, None)) if mk is not None else None
-            mC = model_at(C, it[1]) if it[0] in ('trigger', 'may', 'remove_model') else None
+            mC = model_at(C, it[1]) if it[0] in ('trigger', 'may', 'remove_model', 'readd') else None
             mark = next(SEQ)
             MODREC.clear()
             oc = apply_item(case, C, it)
@@ -1391,7 +1486,7 @@ def run_case(case, want_requests=True):
                 lean_ok = False          # re-entrant triggers touched other models' entries: not in the model
             if not lean_ok or oc[0] == 'skip' or it[0] == 'may':
                 continue
-            if it[0] == 'trigger' and it[2] not in K.machine.events:
+            if it[0] == 'trigger' and it[2] not in all_event_names(K.machine):
                 continue                 # unknown trigger name: rejected or ignored before any table is read
             if it[0] == 'trigger':
                 dstK = canon_state(getattr(mk, K.machine.model_attribute, None))
@@ -1414,6 +1509,10 @@ def run_case(case, want_requests=True):
             elif it[0] in ('add_state', 'add_transition') and ok_[0] == 'ret':
                 lean_events.append([1])
                 lean_obs.append(['regen'])
+                lean_tabs = tables_of(C, numb, sti)
+            elif it[0] == 'readd' and ok_[0] == 'ret' and oc[0] == 'ret':
+                lean_events.append([2, numb.num(mC)])
+                lean_obs.append(['members', oc[1]])
                 lean_tabs = tables_of(C, numb, sti)
             else:
                 lean_ok = False          # membership changes and rejected configuration changes: not in the model
@@ -1451,6 +1550,36 @@ def run_case(case, want_requests=True):
             fail('monitor', 'original-affects-copy', 'copy taken at prefix %d changed while the original ran on: %s'
                  % (p, diff_paths(fpc, fingerprint(C))))
     return {'failures': fails, 'requests': reqs, 'stats': stats}
+
+
+def stale_identity_keys(mach, foreign):
+    """generic discovery of identity-keyed tables: integers equal to id() of an object of ANOTHER machine (the
+    original's models / contexts / the original machine itself) found in any container reachable from the restored
+    machine's __dict__ through dicts, lists, tuples, sets, frozensets and deques.  `foreign`: {id: description}"""
+    from collections import deque
+    hits, seen = [], set()
+
+    def walk(x, where, depth):
+        if isinstance(x, bool):
+            return
+        if isinstance(x, int):
+            if x in foreign:
+                hits.append('%s holds id(%s)' % (where, foreign[x]))
+            return
+        if depth > 6 or id(x) in seen:
+            return
+        if isinstance(x, dict):
+            seen.add(id(x))
+            for k, v in list(x.items()):
+                walk(k, where + ' (key)', depth + 1)
+                walk(v, where, depth + 1)
+        elif isinstance(x, (list, tuple, set, frozenset, deque)):
+            seen.add(id(x))
+            for v in list(x):
+                walk(v, where, depth + 1)
+    for name, val in list(mach.__dict__.items()):
+        walk(val, name, 0)
+    return sorted(set(hits))
 
 
 def shared_objects(A, C):
@@ -1753,7 +1882,7 @@ class C15(runner.Check):
     strict_correspondence = True
     theorems = ('TM.C15_rekey', 'TM.C15_queues', 'TM.C15_queues_separate', 'TM.C15_graphs', 'TM.C15_models', 'TM.C15_tables_full', 'TM.C15_full',
                 'TM.C15_behaviour_invariant', 'TM.C15_held_locks_copy', 'TM.C15_held_locks_orig', 'TM.C15_frame',
-                'TM.C15_midevent_full', 'TM.C15_at_rest')
+                'TM.C15_midevent_full', 'TM.C15_at_rest', 'TM.C15_idtabs_by_value', 'TM.C15_idtabs_stale', 'TM.C15_idtabs_none')
     manifest = dict(
         level='proof', design='DESIGN.md 4/C15; design_notes/C15.md',
         text="Partial. Lean 4 theorems over the identity-keyed side tables (model_context_map, model_graphs, "
@@ -1816,7 +1945,7 @@ class C15(runner.Check):
                 'the theorems speak about an abstract transition relation; the engine itself is not re-proved equivariant']
 
     def budget(self, tier):
-        return (16, 7) if tier == "quick" else (32, 25)
+        return (16, 5) if tier == "quick" else (32, 25)
 
     def explore(self, tier, seed):
         workers, n = self.budget(tier)
